@@ -381,45 +381,64 @@ def _anchor(n, h, bounds, p):
 
 
 def constraint_clauses(pc, slices, N, h=Fraction(1)):
-    """clauses (label, condition) of one plain constraint on the final slices.  N: volume shape."""
+    """clauses (label, condition) of one plain constraint on the final slices.  N: volume shape.
+    A clause over a cell that is still unknown (None) is violated."""
+    out = []
+    for lab, cells, cond in _constraint_clauses(pc, slices, N, h):
+        out.append((lab, cond() if all(x is not None for x in cells) else False))
+    return out
+
+
+def _constraint_clauses(pc, slices, N, h):
+    """-> (label, cells the clause reads, thunk of the condition)"""
     out = []
     k = pc[0]
     if k == "pos":
         _, o, other, axes, op, otp, mg, gm = pc
         for j, ax in enumerate(axes):
-            b0, b1 = slices[o][ax]
-            size = b1 - b0
-            target = _anchor(N[ax], h, slices[other][ax], otp[j]) + (mg[j] if mg[j] is not None else 0) + (gm[j] if gm[j] is not None else 0) * h
-            t = (target - _edge(N[ax], h, 0)) / h - HALF * (frac(op[j]) + 1) * size
-            out.append((f"pos[{o}<-{other},axis{ax}]", is_nearest(b0, t, 0, N[ax] - size)))
+
+            def cond(j=j, ax=ax):
+                b0, b1 = slices[o][ax]
+                size = b1 - b0
+                target = _anchor(N[ax], h, slices[other][ax], otp[j]) + (mg[j] if mg[j] is not None else 0) + (gm[j] if gm[j] is not None else 0) * h
+                t = (target - _edge(N[ax], h, 0)) / h - HALF * (frac(op[j]) + 1) * size
+                return is_nearest(b0, t, 0, N[ax] - size)
+
+            out.append((f"pos[{o}<-{other},axis{ax}]", [*slices[o][ax], *slices[other][ax]], cond))
     elif k == "size":
         _, o, other, axes, oaxes, prop, off, goff = pc
         for j, ax in enumerate(axes):
-            b0, b1 = slices[o][ax]
-            ob0, ob1 = slices[other][oaxes[j]]
-            length = (ob1 - ob0) * h * frac(prop[j]) + (off[j] if off[j] is not None else 0) + (goff[j] if goff[j] is not None else 0) * h
-            out.append((f"size[{o}<-{other},axis{ax}]", vand(length >= 0, is_nearest(b1 - b0, length / h, 0, N[ax]))))
+
+            def cond(j=j, ax=ax):
+                b0, b1 = slices[o][ax]
+                ob0, ob1 = slices[other][oaxes[j]]
+                length = (ob1 - ob0) * h * frac(prop[j]) + (off[j] if off[j] is not None else 0) + (goff[j] if goff[j] is not None else 0) * h
+                return vand(length >= 0, is_nearest(b1 - b0, length / h, 0, N[ax]))
+
+            out.append((f"size[{o}<-{other},axis{ax}]", [*slices[o][ax], *slices[other][oaxes[j]]], cond))
     elif k == "ext":
         _, o, other, axis, direction, opos, off, goff = pc
         d = 0 if direction == "-" else 1
         if other is None:
-            want = 0 if d == 0 else N[axis]
-            out.append((f"ext[{o}->boundary,axis{axis}{direction}]", veq(slices[o][axis][d], want)))
+            out.append((f"ext[{o}->boundary,axis{axis}{direction}]", [slices[o][axis][d]], lambda: veq(slices[o][axis][d], 0 if d == 0 else N[axis])))
         else:
-            target = _anchor(N[axis], h, slices[other][axis], opos) + (off if off is not None else 0) + (goff if goff is not None else 0) * h
-            t = (target - _edge(N[axis], h, 0)) / h
-            out.append((f"ext[{o}->{other},axis{axis}{direction}]", is_nearest(slices[o][axis][d], t, 0, N[axis])))
+
+            def cond():
+                target = _anchor(N[axis], h, slices[other][axis], opos) + (off if off is not None else 0) + (goff if goff is not None else 0) * h
+                t = (target - _edge(N[axis], h, 0)) / h
+                return is_nearest(slices[o][axis][d], t, 0, N[axis])
+
+            out.append((f"ext[{o}->{other},axis{axis}{direction}]", [slices[o][axis][d], *slices[other][axis]], cond))
     elif k == "grid":
         _, o, axes, sides, coords = pc
         for j, ax in enumerate(axes):
             d = 0 if sides[j] == "-" else 1
-            out.append((f"grid[{o},axis{ax}{sides[j]}]", veq(slices[o][ax][d], coords[j])))
+            out.append((f"grid[{o},axis{ax}{sides[j]}]", [slices[o][ax][d]], lambda j=j, ax=ax, d=d: veq(slices[o][ax][d], coords[j])))
     elif k == "real":
         _, o, axes, sides, coords = pc
         for j, ax in enumerate(axes):
             d = 0 if sides[j] == "-" else 1
-            t = (coords[j] - _edge(N[ax], h, 0)) / h
-            out.append((f"real[{o},axis{ax}{sides[j]}]", is_nearest(slices[o][ax][d], t, 0, N[ax])))
+            out.append((f"real[{o},axis{ax}{sides[j]}]", [slices[o][ax][d]], lambda j=j, ax=ax, d=d: is_nearest(slices[o][ax][d], (coords[j] - _edge(N[ax], h, 0)) / h, 0, N[ax])))
     return out
 
 
@@ -446,6 +465,9 @@ def placement_post(info, slices, N, h=Fraction(1)):
     for name in info["shapes"]:
         for ax in range(3):
             b0, b1 = slices[name][ax]
+            if b0 is None or b1 is None:
+                out.append((f"resolved[{name},axis{ax}]", False))
+                continue
             if name == VOL:
                 out.append((f"volume[{ax}]", vand(veq(b0, 0), veq(b1, N[ax]))))
             else:
@@ -460,7 +482,8 @@ def placement_post(info, slices, N, h=Fraction(1)):
         for ax in range(3):
             if (name, ax) not in used:
                 b0, b1 = slices[name][ax]
-                out.append((f"unconstrained_spans_volume[{name},axis{ax}]", vand(veq(b0, 0), veq(b1, N[ax]))))
+                if b0 is not None and b1 is not None:
+                    out.append((f"unconstrained_spans_volume[{name},axis{ax}]", vand(veq(b0, 0), veq(b1, N[ax]))))
     return out
 
 
